@@ -47,6 +47,13 @@ def strategy_(draw):
     sp = draw(gen.base_ocp(horizons=("num", "free"), maxN=3, maxM=2, degrees=(1, 2, 3), allow_alg=False,
                            table_kw={"shapes": [(1, 1), (1, 1), (2, 1)], "max_params": 2, "max_vars": 1}))
     sp["objective"] = [draw(c05.objective_term(sp))]
+    two_globals = draw(st.integers(0, 2)) == 0
+    if two_globals:
+        # two more global parameters (used in the objective), to be assigned together through their concatenation
+        x_first = gen.leaves_of([d for d in sp["states"] if not d.get("quad")])[0]
+        for nm in ("cp0", "cp1"):
+            sp["params"].append({"name": nm, "rows": 1, "cols": 1, "grid": "", "value": [[draw(gen.small())]]})
+        sp["objective"].append(["at_tf", ["*", ["+", E.S("cp0"), ["*", E.C(2.0), E.S("cp1")]], x_first]])
     cur_dc = sp["method"]["cls"] == "DC"
     sp["constraints"] = [draw(simple_constraint(sp, roots_ok=cur_dc)) for _ in range(draw(st.integers(0, 2)))]
     roots_live = any(c.get("grid") == "integrator_roots" for c in sp["constraints"])
@@ -68,6 +75,11 @@ def strategy_(draw):
             ops.append([q])
             continue
         kind = gen.weighted(draw, MUTATORS + ([("sub_set_value", 2), ("sub_subject_to", 1), ("sub_add_objective", 1)] if has_sub else []))
+        globs_ = [d for d in sp["params"] if d.get("grid", "") == "" and d["cols"] == 1 and not d["name"].startswith("hp_")]
+        if kind == "set_value" and len(globs_) >= 2 and draw(st.integers(0, 2)) == 0:
+            # several parameters assigned in one call on their concatenation
+            ops.append(["set_value_concat", [d["name"] for d in globs_[:2]], [[draw(gen.small()) for _ in range(d["rows"])] for d in globs_[:2]]])
+            continue
         if kind == "sub_set_value":
             ops.append(["sub_set_value", draw(gen.small())])
         elif kind == "sub_subject_to":
@@ -128,6 +140,9 @@ def strategy_(draw):
     if sp["T"][0] == "free" and draw(st.integers(0, 1)) == 0:
         # a query, then the free horizon declared free again with another guess: the next query starts from the new guess
         ops += [["sample"], ["set_T", draw(st.sampled_from([0.75, 1.25, 2.5])), True]]
+    if two_globals:
+        # a query, both parameters assigned in one call, an edit that forces a new transcription: the new values must survive it
+        ops += [["sample"], ["set_value_concat", ["cp0", "cp1"], [[draw(gen.small())], [draw(gen.small())]]], ["set_t0", draw(st.sampled_from([0.25, -0.5])), False]]
     if draw(st.integers(0, 3)) == 0:
         # solve, then the same options dictionary edited in place and handed over again, then solve: the new limit must apply
         k1 = draw(st.integers(1, 3))
@@ -266,6 +281,10 @@ def check(case, ctx):
             val = param_value_for(d, op[2], N)
             apply_value(B, ocp, op[1], val)
             d["value"] = val
+        elif kind == "set_value_concat":
+            ocp.set_value(ca.vertcat(*[B.syms[n] for n in op[1]]), ca.DM([v for vals in op[2] for v in vals]))
+            for n, vals in zip(op[1], op[2]):
+                decl[n]["value"] = [[v] for v in vals]
         elif kind == "sub_set_value":
             apply_value(B, B.stages["s1"], "s1p0", [[op[1]]])
             model["substages"][0]["params"][0]["value"] = [[op[1]]]
